@@ -6,8 +6,10 @@ env = dict(os.environ)
 for k in list(env):
     if k.startswith("VERIF") or k.startswith("DTAIDISTANCE_VERIF"):
         env.pop(k)
+if os.environ.get("BASELINE_REPO"):
+    env["PYTHONPATH"] = os.path.join(os.environ["BASELINE_REPO"], "src")
 subprocess.run(["/venv/bin/python", "-m", "pytest", "-ra", "-q", "-p", "no:cacheprovider", "--timeout=900",
-                "--continue-on-collection-errors", "--junitxml=" + out], cwd="/repo", env=env,
+                "--continue-on-collection-errors", "--junitxml=" + out], cwd=os.environ.get("BASELINE_REPO", "/repo"), env=env,
                stdout=subprocess.DEVNULL, stderr=subprocess.DEVNULL)
 passed = set()
 for tc in ET.parse(out).getroot().iter("testcase"):
